@@ -11,7 +11,7 @@
    [hist_check true] only of histories that never switch the keypad on, and is refuted
    otherwise. *)
 From Coq Require Import ZArith List Bool.
-From Tickit Require Import Csi VT TermPenDefs TermPenSpec XtermDefs XtermModeSpec XtermModeProofs XtermModeFinal TermApiDefs TermApiMode.
+From Tickit Require Import Csi VT TermPenDefs TermPenSpec XtermDefs XtermModeSpec XtermModeProofs XtermModeFinal TermApiDefs TermApiMode TermBufDefs TermBufProofs TermBufBalance.
 Import ListNotations.
 Local Open Scope Z_scope.
 
@@ -190,3 +190,61 @@ Example C12_reports_nonvacuous :
      OSet CtlCursorshape 2; OGet CtlCursorshape; OPause; OResume; OTeardown; ODestroy] = MOk 12.
 Proof. split; [exact late_replies_wf | split; vm_compute; reflexivity]. Qed.
 Print Assumptions C12_reports_nonvacuous.
+
+(* ---- OUTPUT BUFFERS and construction orders (TermBufDefs.v: when the driver is started -- lazily, at the first
+   attach of an output -- and which bytes have reached the output by the end of each call: write_str with the
+   buffer flushed whenever it is full, tickit_term_flush, teardown = stop() THEN flush, destroy).
+   [ustep] / [urun]: the same history without buffering (XtermModeSpec.mode_step, plus start() at the first attach).
+   C12_buffer_conserves: once an output is attached, and as long as the buffer is not replaced, buffering changes
+     nothing of the terminal object and  delivered ++ still-buffered = rendering of everything written.
+   C12_buffer_delivered: a history that ends with tickit_term_flush, tickit_term_teardown or destruction has
+     DELIVERED exactly the rendering of the unbuffered history's tokens; nothing is owed.
+   C12_buffered_balanced_nokp: hence, for a started terminal with a buffer of any size, any well-sequenced history
+     of settings / reads / pause / resume / flushes that ends in teardown or destruction leaves the screen -- fed
+     with the bytes delivered by the end of that call -- in its initial modes (keypad aside: the recorded finding)
+     with the default rendition.  (Pen requests are left out of this corollary only because the well-formedness of
+     their tokens needs the range hypothesis; the two theorems above cover them.)
+   The judgement of construction orders (settings into the buffer BEFORE the output is attached, delivered by
+   start()'s flush, the shadow keeping them) is TermBufSpec.oracle_buf, run on the implementation's delivered
+   bytes by the check; that start() leaves the shadow alone is part of the model (TermBufDefs.bstep, BAttach) and
+   is tied to the source byte for byte. *)
+Theorem C12_buffer_conserves : forall ops b b' D,
+  brun b ops = Some (b', D) -> b_out b = true -> binv b -> forallb keeps_buffer ops = true ->
+  exists ts, urun (b_t b) ops = Some (b_t b', ts) /\ D ++ b_pend b' = b_pend b ++ render ts /\
+             b_out b' = true /\ binv b'.
+Proof. exact brun_conserve. Qed.
+Print Assumptions C12_buffer_conserves.
+
+Theorem C12_buffer_delivered : forall ops last b b' D,
+  brun b (ops ++ [last]) = Some (b', D) -> b_out b = true -> binv b -> b_pend b = [] ->
+  forallb keeps_buffer (ops ++ [last]) = true -> is_sync last = true ->
+  exists ts, urun (b_t b) (ops ++ [last]) = Some (b_t b', ts) /\ D = render ts /\ b_pend b' = [].
+Proof. exact brun_delivered. Qed.
+Print Assumptions C12_buffer_delivered.
+
+Theorem C12_buffered_balanced_nokp : forall colon rgb8 cshape cap ops last t s,
+  start_ok colon rgb8 cshape t s ->
+  forallb call_or_flush (ops ++ [last]) = true -> is_sync last = true ->
+  forallb plain (calls_of (ops ++ [last])) = true ->
+  wf_hist false (calls_of (ops ++ [last])) -> existsb is_stop (calls_of (ops ++ [last])) = true ->
+  0 <= cap ->
+  exists b' D, brun (mkB t true cap []) (ops ++ [last]) = Some (b', D) /\ b_pend b' = [] /\
+    ms_eqb_nokp (ms_of_vt (vt_run_bytes D (os_vt s))) init_ms = true /\
+    v_sgr (vt_run_bytes D (os_vt s)) = default_attrs.
+Proof. exact buffered_balanced_nokp. Qed.
+Print Assumptions C12_buffered_balanced_nokp.
+
+Example C12_buffered_nonvacuous :
+  match brun (mkB fresh_term true 4096 []) (firstn 3 buf_example) with
+  | Some (b, D) => D = [] /\ b_pend b <> []
+  | None => False
+  end /\
+  forallb call_or_flush (buf_example ++ [BOp OTeardown]) = true /\
+  forallb plain (calls_of (buf_example ++ [BOp OTeardown])) = true /\
+  wf_hist false (calls_of (buf_example ++ [BOp OTeardown])) /\
+  match brun (mkB fresh_term true 7 []) (buf_example ++ [BOp OTeardown]) with
+  | Some (b', D) => b_pend b' = [] /\ negb (Nat.eqb (length D) 0) = true /\
+                    ms_eqb_nokp (ms_of_vt (vt_run_bytes D (os_vt fresh_ostate))) init_ms = true
+  | None => False
+  end.
+Proof. exact buffered_example. Qed.
